@@ -217,7 +217,7 @@ def tlc(module, cfg, wd, workers=8, simulate=None, depth=None, tseed=None, timeo
                     res.violated = m.group(1)
                 if "Temporal properties were violated" in s:
                     res.violated = res.violated or "temporal"
-                if "Error: The postcondition" in s or "POSTCONDITION" in s and "violated" in s.lower():
+                if s.startswith("Error: Postcondition") or "Error: The postcondition" in s:
                     res.postcondition_failed = True
                 if s.startswith("Error:") and not res.violated and not res.postcondition_failed:
                     errbuf.append(s)
@@ -231,6 +231,11 @@ def tlc(module, cfg, wd, workers=8, simulate=None, depth=None, tseed=None, timeo
                 p.kill()
     res.rc = p.returncode
     res.wall = time.time() - t0
+    res.rejected_at = None
+    if res.postcondition_failed:
+        m = re.search(r'TRACE-REJECTED matched",\s*(\d+)', open(res.stdout_path).read())
+        if m:
+            res.rejected_at = int(m.group(1))
     if res.rc in (-9, 137):
         raise MachineryError("TLC timed out/killed (%s, %s)" % (module, cfg))
     if res.violated is None and not res.postcondition_failed and res.rc != 0:
